@@ -835,3 +835,113 @@ def random_node(b, gens=NODE_GENS):
         if r <= 0:
             return g(b)
     return gens[-1][0](b)
+
+
+# ----------------------------------------------------------------------------------------- nnet layers / losses
+def _rand_valid_axis(rng):
+    """(X, W, s, p, d) with (X + 2p - ((W-1)d+1)) / s + 1 a positive integer."""
+    for _ in range(50):
+        W, s, p, d = rng.randint(1, 3), rng.randint(1, 3), rng.choice([0, 0, 1, 2]), rng.choice([1, 1, 2, 3])
+        g = rng.randint(1, 3)
+        X = (g - 1) * s + (W - 1) * d + 1 - 2 * p
+        if 1 <= X <= 7:
+            return X, W, s, p, d
+    return 3, 2, 1, 0, 1
+
+
+def g_conv(b):
+    rng = b.rng
+    nsp = rng.choice([1, 1, 2, 2, 3])
+    axes = [_rand_valid_axis(rng) for _ in range(nsp)]
+    N, C, Fn = rng.randint(1, 2), rng.randint(1, 2), rng.randint(1, 2)
+    x = b.leaf((N, C) + tuple(a[0] for a in axes), kind=rng.choice(["tensor", "tensor", "array"]), constant=rng.choice([None, None, True]))
+    w = b.leaf((Fn, C) + tuple(a[1] for a in axes), kind=rng.choice(["tensor", "tensor", "array"]))
+    def spell(vals):
+        return vals[0] if len(set(vals)) == 1 and rng.random() < 0.5 else ["t", list(vals)]
+    kw = {"stride": spell([a[2] for a in axes])}
+    if any(a[3] for a in axes) or rng.random() < 0.3:
+        kw["padding"] = spell([a[3] for a in axes])
+    if any(a[4] != 1 for a in axes) or rng.random() < 0.3:
+        kw["dilation"] = spell([a[4] for a in axes])
+    return b.call("conv_nd", [R(x), R(w)], kw=kw, sp="mg")
+
+
+def g_pool(b):
+    rng = b.rng
+    nsp = rng.choice([1, 2, 2])
+    lead = tuple(rng.randint(1, 2) for _ in range(rng.randint(0, 2)))
+    dims = []
+    for _ in range(nsp):
+        P, s, g = rng.randint(1, 3), rng.randint(1, 3), rng.randint(1, 3)
+        dims.append(((g - 1) * s + P, P, s))
+    shape = lead + tuple(d[0] for d in dims)
+    vals = np.array(rng.sample([round(0.1 * i - 3.0, 2) for i in range(200)], int(np.prod(shape)))).reshape(shape)  # distinct values: no ties
+    x = b.leaf(shape, values=vals)
+    strides = [d[2] for d in dims]
+    stride = strides[0] if len(set(strides)) == 1 and rng.random() < 0.5 else ["t", strides]
+    return b.call("max_pool", [R(x), ["t", [d[1] for d in dims]], stride], sp="mg")
+
+
+def g_batchnorm(b):
+    rng = b.rng
+    nd = rng.randint(2, 4)
+    shape = (rng.randint(2, 4), rng.randint(1, 3)) + tuple(rng.randint(1, 3) for _ in range(nd - 2))
+    x = b.leaf(shape)
+    kw = {"eps": rng.choice([1e-3, 1e-2, 1e-1])}
+    if rng.random() < 0.6:
+        kw["gamma"] = R(b.leaf((shape[1],), kind=rng.choice(["tensor", "tensor", "array"])))
+    if rng.random() < 0.6:
+        kw["beta"] = R(b.leaf((shape[1],), kind=rng.choice(["tensor", "tensor", "array"])))
+    return b.call("batchnorm", [R(x)], kw=kw, sp="mg")
+
+
+def g_gru(b):
+    rng = b.rng
+    T, N, C, D = rng.randint(1, 3), rng.randint(1, 2), rng.randint(1, 3), rng.randint(1, 3)
+    names = [b.leaf((T, N, C), lo=0.2, hi=1.0, kind=rng.choice(["tensor", "tensor", "array"]))]
+    for _ in range(3):
+        names.append(b.leaf((C, D), lo=0.2, hi=1.0, constant=rng.choice([None, None, None, True])))
+        names.append(b.leaf((D, D), lo=0.2, hi=1.0))
+        names.append(b.leaf((D,), lo=0.2, hi=1.0, kind=rng.choice(["tensor", "tensor", "array"])))
+    kw = {}
+    if rng.random() < 0.4:
+        kw["s0"] = enc_arr(rand_values(rng, (N, D), 0.1, 0.8))
+    return b.call("gru", [R(n) for n in names], kw=kw, sp="mg")
+
+
+def g_loss(b, fn=None):
+    rng = b.rng
+    fn = fn or rng.choice(OT.LOSS_FNS)
+    N, Cn = rng.randint(1, 4), rng.randint(2, 4)
+    y = enc_arr(np.array([rng.randrange(Cn) for _ in range(N)]))
+    if fn == "margin_ranking_loss":
+        shp = (N,) if rng.random() < 0.5 else (N, rng.randint(1, 3))
+        x1, x2 = b.leaf(shp), b.leaf(shp)
+        yv = rng.choice([1, -1]) if rng.random() < 0.4 else enc_arr(np.array([rng.choice([1.0, -1.0]) for _ in range(N)]))
+        args, kw = [R(x1), R(x2), yv, rng.choice([0.5, 1.0, 2.5])], {}
+    elif fn == "focal_loss":
+        raw = rand_values(rng, (N, Cn), 0.2, 1.0, signed=False)
+        p = b.leaf((N, Cn), values=raw / raw.sum(axis=1, keepdims=True) * 0.9 + 0.03)
+        args, kw = [R(p), y], {"alpha": rng.choice([1, 0.5, 2]), "gamma": rng.choice([0, 0.5, 1, 2])}
+    elif fn == "softmax_focal_loss":
+        args, kw = [R(b.leaf((N, Cn))), y], {"alpha": rng.choice([1, 0.5, 2]), "gamma": rng.choice([0, 0.5, 1, 2])}
+    elif fn == "negative_log_likelihood":
+        x = b.leaf((N, Cn), lo=0.2, hi=2.0)
+        kw = {"weights": enc_arr(rand_values(rng, (Cn,), 0.5, 2.0, signed=False))} if rng.random() < 0.5 else {}
+        args = [R(x), y]
+    elif fn == "multiclass_hinge":
+        args, kw = [R(b.leaf((N, Cn))), y], ({"hinge": rng.choice([0.5, 1.0, 2.0])} if rng.random() < 0.6 else {})
+    else:
+        args, kw = [R(b.leaf((N, Cn))), y], {}
+    vals = [b.it.dec(a) for a in args]
+    if not OT.SPECS[fn].in_domain(*vals, **{k: b.it.dec(v) for k, v in kw.items()}):
+        return None
+    return b.call(fn, args, kw=kw, sp="mg")
+
+
+def g_layer(b):
+    rng = b.rng
+    return rng.choice([g_conv, g_pool, g_batchnorm, g_loss, g_loss])(b)
+
+
+NODE_GENS_WITH_LAYERS = NODE_GENS + [(g_layer, 4)]
